@@ -229,4 +229,17 @@ def r8_2(ctx: Ctx) -> RuleResult:
     return rr
 
 
-RULES = [r8_1, r8_2]
+def r8_3(ctx: Ctx) -> RuleResult:
+    """No shared mutable evaluation state (needed for "several evaluations
+    awaited concurrently"): the write-effect rule of C09, restricted to findings."""
+    from .c09 import r9_1
+
+    rr = r9_1(ctx)
+    rr.rule = "R8.3"
+    rr.title = "no shared mutable evaluation state (R9.1)"
+    for f in rr.findings:
+        f.rule = "R8.3"
+    return rr
+
+
+RULES = [r8_1, r8_2, r8_3]
